@@ -134,7 +134,7 @@ class HttpxTransport:
 
         # 2. Merge headers passed specifically for this request (overriding transport defaults)
         if "headers" in current_request_kwargs and isinstance(current_request_kwargs["headers"], dict):
-            prepared_headers.update(current_request_kwargs["headers"])
+            self._merge_headers(prepared_headers, current_request_kwargs["headers"])
 
         # 3. Apply authentication plugin or bearer token (which can further modify headers)
         # We pass a temporary request_args dict containing only the headers to the auth plugin,
@@ -156,7 +156,8 @@ class HttpxTransport:
                     current_request_kwargs[location] = authenticated_args[location]
             # Ensure 'headers' key exists and is a dict after authentication
             if "headers" in authenticated_args and isinstance(authenticated_args["headers"], dict):
-                prepared_headers = authenticated_args["headers"]
+                prepared_headers = {}
+                self._merge_headers(prepared_headers, authenticated_args["headers"])
             else:
                 # Handle cases where auth plugin might not return headers as expected
                 # This could be an error or a specific design of an auth plugin.
@@ -165,9 +166,20 @@ class HttpxTransport:
                 pass  # Or raise an error, or log a warning.
         elif self._bearer_token is not None:
             # If no auth plugin, but bearer token is present, add/overwrite Authorization header.
-            prepared_headers["Authorization"] = f"Bearer {self._bearer_token}"
+            self._merge_headers(prepared_headers, {"Authorization": f"Bearer {self._bearer_token}"})
 
         return prepared_headers
+
+    @staticmethod
+    def _merge_headers(target: dict[str, str], new_headers: dict[str, str]) -> None:
+        """
+        Merges new_headers into target. HTTP header names are case-insensitive, so a later
+        header replaces an earlier one that differs only in case instead of being sent twice.
+        """
+        for name, value in new_headers.items():
+            for existing in [k for k in target if k != name and k.lower() == name.lower()]:
+                del target[existing]
+            target[name] = value
 
     async def request(
         self,
